@@ -92,16 +92,17 @@ theorem C03_call_attributes_frame (kvs : List Val) (st st' : St) (v : Val)
   obtain ⟨h1, h2, h3, _, _, h6⟩ := g.rest
   exact ⟨g.getArr, g.getMap, h1, h2, h3, h6, hv⟩
 
-/-- the three runtime helpers that are function literals in the funcmap (`pugjs/runtime.go`), statement by statement, as the models
-`mapParams`, `__op__array` and `__op__map` of `Tpl/Exec.lean` were written against; regenerated from the Go source on every run -/
+/-- the runtime helpers that are function literals in the funcmap (`pugjs/runtime.go`) - the call's attributes object, the array and object
+literals, the tolerant index behind mixin arguments, the conditional, string building, the attribute spread, `range`, `null` - statement by
+statement, as the models `mapParams`, `opMap` and the `callBuiltin` branches of `Tpl/Exec.lean` were written against; regenerated from the Go source on every run -/
 def expected_helperLitBodies : List (String × String) :=
   [("__op__map_params", "m := make(map[interface{}]interface{}, len(a)/2)"),
    ("__op__map_params", "for i := 0; i < len(a); i += 2 {"),
    ("__op__map_params", "if _, ok := m[a[i]]; ok {"),
-   ("__op__map_params", "if x, ok := m[a[i]].([]interface{}); ok {"),   -- a raw Go slice: only ever the list this loop built itself
+   ("__op__map_params", "if x, ok := m[a[i]].([]interface{}); ok {"),
    ("__op__map_params", "m[a[i]] = append(x, a[i+1])"),
    ("__op__map_params", "} else {"),
-   ("__op__map_params", "m[a[i]] = []interface{}{m[a[i]], a[i+1]}"),   -- a FRESH list of the first and the second value
+   ("__op__map_params", "m[a[i]] = []interface{}{m[a[i]], a[i+1]}"),
    ("__op__map_params", "} else {"),
    ("__op__map_params", "m[a[i]] = a[i+1]"),
    ("__op__map_params", "return convert(m)"),
@@ -112,7 +113,44 @@ def expected_helperLitBodies : List (String × String) :=
    ("__op__map", "for i := 0; i < len(a); i += 2 {"),
    ("__op__map", "m.items[convert(a[i]).String()] = convert(a[i+1])"),
    ("__op__map", "m.order = append(m.order, convert(a[i]).String())"),
-   ("__op__map", "return m")]
+   ("__op__map", "return m"),
+   ("__tryindex", "arr, ok := obj.(*Array)"),
+   ("__tryindex", "idx, ok2 := key.(int)"),
+   ("__tryindex", "if ok && ok2 {"),
+   ("__tryindex", "if len(arr.items) <= idx {"),
+   ("__tryindex", "return Nil{}"),
+   ("__tryindex", "return arr.items[idx]"),
+   ("__tryindex", "if obj, ok := obj.(Object); ok {"),
+   ("__tryindex", "return obj.Member(convert(key).String())"),
+   ("__tryindex", "vo, _ := indirect(reflect.ValueOf(obj))"),
+   ("__tryindex", "k := int(reflect.ValueOf(key).Int())"),
+   ("__tryindex", "if !vo.IsValid() {"),
+   ("__tryindex", "return nil"),
+   ("__tryindex", "if vo.Len() > k {"),
+   ("__tryindex", "return vo.Index(k).Interface()"),
+   ("__tryindex", "return nil"),
+   ("__if", "if t, ok := IsTrue(test); ok && t {"),
+   ("__if", "return left"),
+   ("__if", "return right"),
+   ("__str", "var res string"),
+   ("__str", "for _, s := range l {"),
+   ("__str", "res += convert(s).String()"),
+   ("__str", "return res"),
+   ("__and_attrs", "for _, k := range x.Keys() {"),
+   ("__and_attrs", "res = append(res, attrOf(k, x.Member(k), true)...)"),
+   ("__and_attrs", "return"),
+   ("__Range", "var res []int"),
+   ("__Range", "var m, o int"),
+   ("__Range", "if len(args) == 1 {"),
+   ("__Range", "m = int(args[0])"),
+   ("__Range", "o = 0"),
+   ("__Range", "} else {"),
+   ("__Range", "m = int(args[1])"),
+   ("__Range", "o = int(args[0])"),
+   ("__Range", "for i := o; i < m; i++ {"),
+   ("__Range", "res = append(res, i)"),
+   ("__Range", "return convert(res)"),
+   ("null", "return Nil{}")]
 
 /-- **C03 (the model's tie to the code of the helper, statement by statement).** A change to any statement of `__op__map_params`
 (or of the array / object literal helpers) re-opens this obligation before any input is drawn. -/
